@@ -196,4 +196,246 @@ theorem tv_two_step_rev {n v0 v1 v2 : Nat} (h02 : ip n v0 v2 = true)
   simp only [tv, ip_xor_right, ip_self, h21, Bool.xor_false, if_true]
   rw [Nat.xor_comm v1 v2, ← Nat.xor_assoc, Nat.xor_self, Nat.zero_xor]
 
+/-! ### `find_transvection` -/
+
+theorem findIdx_some {p : Nat → Bool} {k i : Nat} (h : findIdx p k = some i) : i < k ∧ p i = true := by
+  induction k with
+  | zero => simp [findIdx] at h
+  | succ k ih =>
+    rw [findIdx] at h
+    cases hf : findIdx p k with
+    | some j =>
+      rw [hf] at h; simp only [Option.some.injEq] at h; subst h
+      have := ih hf; exact ⟨by omega, this.2⟩
+    | none =>
+      rw [hf] at h
+      by_cases hp : p k = true
+      · simp only [hp, if_true, Option.some.injEq] at h; subst h; exact ⟨by omega, hp⟩
+      · simp [hp] at h
+
+theorem findIdx_none {p : Nat → Bool} {k : Nat} (h : findIdx p k = none) : ∀ j, j < k → p j = false := by
+  induction k with
+  | zero => intro j hj; omega
+  | succ k ih =>
+    rw [findIdx] at h
+    cases hf : findIdx p k with
+    | some j => rw [hf] at h; simp at h
+    | none =>
+      rw [hf] at h
+      by_cases hp : p k = true
+      · simp [hp] at h
+      · intro j hj
+        rcases Nat.lt_succ_iff_lt_or_eq.mp hj with h1 | h1
+        · exact ih hf j h1
+        · subst h1; simpa using hp
+
+theorem findIdx_congr {p q : Nat → Bool} (h : ∀ i, p i = q i) (k : Nat) : findIdx p k = findIdx q k := by
+  have : p = q := funext h
+  rw [this]
+
+/-- a non-zero vector below `4^n` has a non-zero pair -/
+theorem exists_pairNZ {n v : Nat} (h0 : v ≠ 0) (hv : v < 4 ^ n) : ∃ i, i < n ∧ pairNZ n v i = true := by
+  obtain ⟨k, hk⟩ := Nat.exists_testBit_of_ne_zero h0
+  have hk2 : k < 2 * n := by
+    by_contra hc
+    rw [four_pow] at hv
+    rw [testBit_eq_false_of_lt hv (by omega)] at hk
+    exact absurd hk (by simp)
+  by_cases hkn : k < n
+  · exact ⟨k, hkn, by simp [pairNZ, hk]⟩
+  · refine ⟨k - n, by omega, ?_⟩
+    have : k - n + n = k := by omega
+    simp [pairNZ, this, hk]
+
+theorem oneSided_lt {n u : Nat} {idx : Option Nat} (h : ∀ i, idx = some i → i < n) : oneSided n u idx < 4 ^ n := by
+  rw [four_pow]
+  cases idx with
+  | none => simp [oneSided]
+  | some i =>
+    have hi := h i rfl
+    simp only [oneSided]
+    split
+    · exact bit_lt _ (by omega)
+    · exact xor_lt (bit_lt _ (by omega)) (bit_lt _ (by omega))
+
+/-- the vector written for the first index where `u` has a non-zero pair pairs to `1` with `u` … -/
+theorem ip_oneSided_self {n u i : Nat} (hi : i < n) (hu : pairNZ n u i = true) :
+    ip n u (oneSided n u (some i)) = true := by
+  simp only [oneSided, pairNZ] at *
+  by_cases he : u.testBit i = u.testBit (i + n)
+  · have : bit (i + n) true = bit i false ^^^ bit (i + n) true := by simp [bit]
+    rw [if_pos (by simp [he]), this, ip_pair n u i _ _ hi]
+    rw [he] at hu ⊢; simpa using hu
+  · rw [if_neg (by simpa using he), ip_pair n u i _ _ hi]
+    revert he hu
+    cases u.testBit i <;> cases u.testBit (i + n) <;> simp
+
+/-- … and to `0` with a vector whose pair at that index is `00`. -/
+theorem ip_oneSided_other {n u w i : Nat} (hi : i < n) (hw : pairNZ n w i = false) :
+    ip n w (oneSided n u (some i)) = false := by
+  simp only [oneSided, pairNZ, Bool.or_eq_false_iff] at *
+  have e : bit (i + n) true = bit i false ^^^ bit (i + n) true := by simp [bit]
+  split
+  · rw [e, ip_pair n w i _ _ hi]; simp [hw.1, hw.2]
+  · rw [ip_pair n w i _ _ hi]; simp [hw.1, hw.2]
+
+/-- the three facts about `v2` on which the last three branches rest -/
+structure Good (n v0 v1 v2 : Nat) : Prop where
+  h02 : ip n v0 v2 = true
+  h12 : ip n v1 v2 = true
+  lt : v2 < 4 ^ n
+
+/-- description of the value of `findTv` (the branch taken) -/
+theorem findTv_cases (n v0 v1 : Nat) (h0 : v0 ≠ 0) (h1 : v1 ≠ 0) (hv0 : v0 < 4 ^ n) (hv1 : v1 < 4 ^ n) :
+    (v0 = v1 ∧ findTv n v0 v1 = (0, 0)) ∨
+    (v0 ≠ v1 ∧ ip n v0 v1 = true ∧ findTv n v0 v1 = (v0 ^^^ v1, 0)) ∨
+    (v0 ≠ v1 ∧ ip n v0 v1 = false ∧ ∃ v2, Good n v0 v1 v2 ∧ findTv n v0 v1 = (v1 ^^^ v2, v0 ^^^ v2)) := by
+  by_cases he : v0 = v1
+  · left; exact ⟨he, by simp [findTv, he]⟩
+  by_cases hip : ip n v0 v1 = true
+  · right; left; exact ⟨he, hip, by simp [findTv, he, hip]⟩
+  right; right
+  refine ⟨he, by simpa using hip, ?_⟩
+  have hip' : ip n v0 v1 = false := by simpa using hip
+  unfold findTv
+  rw [if_neg he, if_neg (by simp [hip'])]
+  cases hf : findIdx (fun i => pairNZ n v0 i && pairNZ n v1 i) n with
+  | some i =>
+    obtain ⟨hi, hp⟩ := findIdx_some hf
+    simp only [Bool.and_eq_true, pairNZ, Bool.or_eq_true] at hp
+    refine ⟨_, ⟨?_, ?_, ?_⟩, rfl⟩
+    · split
+      · rename_i hc
+        rw [ip_pair n v0 i _ _ hi]
+        revert hc; have := hp.1
+        revert this
+        cases v0.testBit i <;> cases v0.testBit (i + n) <;> cases v1.testBit i <;> cases v1.testBit (i + n) <;> simp
+      · rename_i hc
+        rw [ip_pair n v0 i _ _ hi]
+        revert hc; have := hp.1; have := hp.2
+        revert this; revert this
+        cases v0.testBit i <;> cases v0.testBit (i + n) <;> cases v1.testBit i <;> cases v1.testBit (i + n) <;> simp
+    · split
+      · rename_i hc
+        rw [ip_pair n v1 i _ _ hi]
+        revert hc; have := hp.1; have := hp.2
+        revert this; revert this
+        cases v0.testBit i <;> cases v0.testBit (i + n) <;> cases v1.testBit i <;> cases v1.testBit (i + n) <;> simp
+      · rename_i hc
+        rw [ip_pair n v1 i _ _ hi]
+        revert hc; have := hp.1; have := hp.2
+        revert this; revert this
+        cases v0.testBit i <;> cases v0.testBit (i + n) <;> cases v1.testBit i <;> cases v1.testBit (i + n) <;> simp
+    · rw [four_pow]
+      split <;> exact xor_lt (bit_lt _ (by omega)) (bit_lt _ (by omega))
+  | none =>
+    have hnone := findIdx_none hf
+    obtain ⟨i0, hi0, hp0⟩ := exists_pairNZ h0 hv0
+    obtain ⟨i1, hi1, hp1⟩ := exists_pairNZ h1 hv1
+    have hq0 : pairNZ n v1 i0 = false := by
+      have := hnone i0 hi0; simpa [hp0] using this
+    have hq1 : pairNZ n v0 i1 = false := by
+      have := hnone i1 hi1; simpa [hp1] using this
+    -- both one-sided searches succeed
+    cases hfa : findIdx (fun i => pairNZ n v0 i && !pairNZ n v1 i) n with
+    | none => have := findIdx_none hfa i0 hi0; simp [hp0, hq0] at this
+    | some ia =>
+      cases hfb : findIdx (fun i => !pairNZ n v0 i && pairNZ n v1 i) n with
+      | none => have := findIdx_none hfb i1 hi1; simp [hp1, hq1] at this
+      | some ib =>
+        obtain ⟨hia, hpa⟩ := findIdx_some hfa
+        obtain ⟨hib, hpb⟩ := findIdx_some hfb
+        simp only [Bool.and_eq_true, Bool.not_eq_true'] at hpa hpb
+        refine ⟨_, ⟨?_, ?_, ?_⟩, rfl⟩
+        · rw [ip_xor_right, ip_oneSided_self hia hpa.1, ip_oneSided_other hib hpb.1]; rfl
+        · rw [ip_xor_right, ip_oneSided_other hia hpa.2, ip_oneSided_self hib hpb.2]; rfl
+        · rw [four_pow]
+          refine xor_lt ?_ ?_
+          · rw [← four_pow]; exact oneSided_lt (by intro i h; cases h; exact hia)
+          · rw [← four_pow]; exact oneSided_lt (by intro i h; cases h; exact hib)
+
+/-- **Lemma 2**: the two transvections returned map `v0` to `v1` (in the order `ret[0]`, then `ret[1]`). -/
+theorem findTv_spec (n v0 v1 : Nat) (h0 : v0 ≠ 0) (h1 : v1 ≠ 0) (hv0 : v0 < 4 ^ n) (hv1 : v1 < 4 ^ n) :
+    tv n (tv n v0 (findTv n v0 v1).1) (findTv n v0 v1).2 = v1 := by
+  rcases findTv_cases n v0 v1 h0 h1 hv0 hv1 with ⟨he, hf⟩ | ⟨_, hip, hf⟩ | ⟨_, hip, v2, hg, hf⟩
+  · rw [hf]; simp [tv_zero, he]
+  · rw [hf]; simp only [tv_zero]
+    simp only [tv, ip_xor_right, ip_self, hip, Bool.false_xor, if_true]
+    rw [← Nat.xor_assoc, Nat.xor_self, Nat.zero_xor]
+  · rw [hf]; exact tv_two_step hip hg.h02 hg.h12
+
+/-- the same two transvections applied in the other order (`ret[1]` first) also map `v0` to `v1`;
+this is the order in which `from_int_tuple` / `to_int_tuple` use them -/
+theorem findTv_spec_rev (n v0 v1 : Nat) (h0 : v0 ≠ 0) (h1 : v1 ≠ 0) (hv0 : v0 < 4 ^ n) (hv1 : v1 < 4 ^ n) :
+    tv n (tv n v0 (findTv n v0 v1).2) (findTv n v0 v1).1 = v1 := by
+  rcases findTv_cases n v0 v1 h0 h1 hv0 hv1 with ⟨he, hf⟩ | ⟨_, hip, hf⟩ | ⟨_, hip, v2, hg, hf⟩
+  · rw [hf]; simp [tv_zero, he]
+  · rw [hf]; simp only [tv_zero]
+    simp only [tv, ip_xor_right, ip_self, hip, Bool.false_xor, if_true]
+    rw [← Nat.xor_assoc, Nat.xor_self, Nat.zero_xor]
+  · rw [hf]; exact tv_two_step_rev hg.h02 hg.h12
+
+theorem findTv_lt (n v0 v1 : Nat) (h0 : v0 ≠ 0) (h1 : v1 ≠ 0) (hv0 : v0 < 4 ^ n) (hv1 : v1 < 4 ^ n) :
+    (findTv n v0 v1).1 < 4 ^ n ∧ (findTv n v0 v1).2 < 4 ^ n := by
+  have hpos : 0 < 4 ^ n := by positivity
+  rw [four_pow] at *
+  rcases findTv_cases n v0 v1 h0 h1 (by rw [four_pow]; exact hv0) (by rw [four_pow]; exact hv1)
+    with ⟨he, hf⟩ | ⟨_, hip, hf⟩ | ⟨_, hip, v2, hg, hf⟩
+  · rw [hf]; exact ⟨hpos, hpos⟩
+  · rw [hf]; exact ⟨xor_lt hv0 hv1, hpos⟩
+  · rw [hf]; have := hg.lt; rw [four_pow] at this
+    exact ⟨xor_lt hv1 this, xor_lt hv0 this⟩
+
+/-- `find_transvection(v1, v0)` returns the same pair as `find_transvection(v0, v1)`, swapped in the
+last three branches -/
+theorem findTv_swap (n v0 v1 : Nat) :
+    findTv n v1 v0 = if v0 = v1 ∨ ip n v0 v1 = true then findTv n v0 v1
+      else ((findTv n v0 v1).2, (findTv n v0 v1).1) := by
+  by_cases he : v0 = v1
+  · subst he; simp
+  have he' : ¬ v1 = v0 := fun h => he h.symm
+  by_cases hip : ip n v0 v1 = true
+  · have hip' : ip n v1 v0 = true := by rw [ip_comm]; exact hip
+    simp [findTv, he, he', hip, hip', Nat.xor_comm]
+  · have hip' : ¬ ip n v1 v0 = true := by rw [ip_comm]; exact hip
+    rw [if_neg (by simp [he, hip])]
+    unfold findTv
+    rw [if_neg he, if_neg he', if_neg hip, if_neg hip']
+    have e1 : (fun i => pairNZ n v1 i && pairNZ n v0 i) = (fun i => pairNZ n v0 i && pairNZ n v1 i) :=
+      funext fun i => Bool.and_comm _ _
+    have e2 : (fun i => pairNZ n v1 i && !pairNZ n v0 i) = (fun i => !pairNZ n v0 i && pairNZ n v1 i) :=
+      funext fun i => Bool.and_comm _ _
+    have e3 : (fun i => !pairNZ n v1 i && pairNZ n v0 i) = (fun i => pairNZ n v0 i && !pairNZ n v1 i) :=
+      funext fun i => Bool.and_comm _ _
+    rw [e1, e2, e3]
+    cases findIdx (fun i => pairNZ n v0 i && pairNZ n v1 i) n with
+    | some i =>
+      simp only
+      have : (if (!(v1.testBit i ^^ v0.testBit i) && !(v1.testBit (i + n) ^^ v0.testBit (i + n))) = true then
+            bit i (v1.testBit i ^^ v1.testBit (i + n)) ^^^ bit (i + n) true
+          else bit i (v1.testBit i ^^ v0.testBit i) ^^^ bit (i + n) (v1.testBit (i + n) ^^ v0.testBit (i + n)))
+          = (if (!(v0.testBit i ^^ v1.testBit i) && !(v0.testBit (i + n) ^^ v1.testBit (i + n))) = true then
+            bit i (v0.testBit i ^^ v0.testBit (i + n)) ^^^ bit (i + n) true
+          else bit i (v0.testBit i ^^ v1.testBit i) ^^^ bit (i + n) (v0.testBit (i + n) ^^ v1.testBit (i + n))) := by
+        cases v0.testBit i <;> cases v0.testBit (i + n) <;> cases v1.testBit i <;> cases v1.testBit (i + n) <;> rfl
+      rw [this]
+    | none =>
+      simp only
+      rw [Nat.xor_comm (oneSided n v1 _) (oneSided n v0 _)]
+
+/-- hence the composite used by `to_int_tuple` undoes the composite used by `from_int_tuple` -/
+theorem findTv_undo (n v0 v1 x : Nat) :
+    tv n (tv n (tv n (tv n x (findTv n v0 v1).2) (findTv n v0 v1).1) (findTv n v1 v0).2) (findTv n v1 v0).1 = x := by
+  rw [findTv_swap n v0 v1]
+  by_cases hc : v0 = v1 ∨ ip n v0 v1 = true
+  · rw [if_pos hc]
+    have h2 : (findTv n v0 v1).2 = 0 := by
+      rcases hc with he | hip
+      · simp [findTv, he]
+      · by_cases he : v0 = v1
+        · simp [findTv, he]
+        · simp [findTv, he, hip]
+    rw [h2]; simp only [tv_zero, tv_involutive]
+  · rw [if_neg hc]; simp only [tv_involutive]
+
 end Numqi.SpF2
